@@ -63,6 +63,25 @@ Mutations of the real code tried (fresh copy of /repo, VERIF_REPO, ./check C09 -
       stream): caught, 116 violations "wrong address advance" (`db ?,3 dup (?,?,?),?` advances 8 words instead of 6).
     Finding of the unchanged tree from that round (known_findings + proposed fix C09-avr-data-drops-pending-byte): AVR
     `data "abc",0x1234` drops the character 'c' (codeavr.c PlaceValue).
+
+Extension "charmap" (checks/ext_charmap.py, last phase of main(); spec modules CharMap, CharMap_MC + cfgs; details, bounds and
+what is not covered in the docstring of checks/ext_charmap.py): the character translation table as a STATE MACHINE over
+histories of CHARSET (no argument / i,v / i,j,v / i,"string" / "file"; integer arguments written as character constants are
+translated themselves, string arguments are not) / CODEPAGE name[,source] (copy at creation, case-insensitive names unless -U)
+/ SAVE / RESTORE, every pass starting from the single 1:1 page STANDARD.  TLC checks the pointer-level transcription of
+asmallg.c against the declarative fold and a backward (demand-driven) reading of the manual over all histories of <= 2
+statements of 101, <= 3 of 14 (thorough <= 3 of 101, <= 5 of 14; 23.7 k resp. 3.3 M states), refutes five named deviations,
+and prints histories (quick 6 k: length 2 over 101 statements sampled, length 3 over the 12 page/stack statements exhaustive,
+1 000 simulated of length 5; thorough ~52 k x 4 targets) with the element values of seven probes in front of and behind every
+statement (strings, character constants, 2-character constants, constants in terms and instruction operands, string
+comparisons that must NOT be translated, symbols captured eagerly / lazily); rendered for z80, 68000, 6502, 6809 (every fourth
+with two passes, -U where the history says so), assembled by the real asl, code file compared element by element.  A wrong
+element of a DATA probe in a history without erroneous statements is a C09 violation; instruction operands, histories with
+erroneous statements (read through the emit/diag hooks) and the points where the manual's sentence on SAVE/RESTORE admits two
+readings are SPEC-DRIFT only.  No finding on the unchanged tree (one named deviation: `CODEPAGE existing,unknown` is rejected
+although the manual calls the second parameter meaningless then; kept as drift-level).
+Mutations tried for the extension (scratch copies, quick tier, VERIF_REPO; number of rejected histories of ~6 000):
+    MUTATION_RESULTS
 """
 import os
 
